@@ -160,6 +160,18 @@ pub struct TypeVariable {
     pub ty: TyID,
 }
 
+/// Does control reach the end of this block without the block having a value?
+fn falls_through_without_value(body: &[Statement]) -> bool {
+    !matches!(
+        body.last(),
+        Some(Statement::StatementExpression { .. })
+            | Some(Statement::Ret { .. })
+            | Some(Statement::Break(..))
+            | Some(Statement::Continue(..))
+            | Some(Statement::Unreachable(..))
+    )
+}
+
 pub struct TypeChecker {
     types: Vec<TypeNode>,
     pub variables: Vec<TypeVariable>,
@@ -906,7 +918,13 @@ impl TypeChecker {
                                     .into(),
                             )?;
                     }
-                    value
+                    // A branch that can be left without producing a value makes the whole
+                    // expression valueless.
+                    if branches.iter().any(|branch| falls_through_without_value(&branch.body)) {
+                        Some(self.push_type(Type::Void))
+                    } else {
+                        value
+                    }
                 };
                 with_ret(
                     ret,
@@ -947,6 +965,16 @@ impl TypeChecker {
                 } else {
                     self.add_constraint(to_match, *span, Constraint::TotalEnum(branch_names));
                     self.check_constraints(*span, ctx, to_match)?;
+                }
+                // A branch that can be left without producing a value makes the whole
+                // expression valueless.
+                if branches.iter().any(|branch| falls_through_without_value(&branch.body))
+                    || fall_through
+                        .as_ref()
+                        .map(|body| falls_through_without_value(body))
+                        .unwrap_or(false)
+                {
+                    value = Some(self.push_type(Type::Void));
                 }
                 with_ret(
                     ret,
